@@ -58,8 +58,9 @@ static const char *class_names[C_NCLASS] = {
 	"open", "read", "fwrite", "pwrite", "out", "err", "mkdir", "pipe",
 	"spawn", "wait" };
 
-enum { A_ERRNO, A_SHORT, A_EINTR, A_CRASH };
-static const char *action_names[] = { "errno", "short", "eintr", "crash" };
+enum { A_ERRNO, A_SHORT, A_EINTR, A_CRASH, A_HOLD };
+static const char *action_names[] = { "errno", "short", "eintr", "crash", "hold" };
+static char hold_path[4096];     /* VERIF_SIM_HOLD: FIFO at which a `hold` entry parks the process */
 
 #define MAX_PLAN 32
 struct plan_entry {
@@ -184,7 +185,7 @@ static void parse_plan(const char *s)
 			e->cls = class_by_name(f[0], strlen(f[0]));
 			e->idx = atol(f[1]);
 			e->action = -1;
-			for (int a = 0; a < 4; a++)
+			for (int a = 0; a < 5; a++)
 				if (!strcmp(f[2], action_names[a]))
 					e->action = a;
 			e->arg = nf > 3 ? atol(f[3]) : 0;
@@ -231,6 +232,8 @@ __attribute__((constructor)) static void simos_init(void)
 		order_child_first = 1;
 	if ((v = getenv("VERIF_SIM_TRACE_STDIO")) && !strcmp(v, "0"))
 		trace_out_err = 0;
+	if ((v = getenv("VERIF_SIM_HOLD")) && *v && strlen(v) < sizeof hold_path)
+		strcpy(hold_path, v);
 	if ((v = getenv("VERIF_SIM_PLAN")) && *v) {
 		parse_plan(v);
 		armed = 1;
@@ -243,6 +246,7 @@ __attribute__((constructor)) static void simos_init(void)
 		unsetenv("VERIF_SIM_PID");
 		unsetenv("VERIF_SIM_ORDER");
 		unsetenv("VERIF_SIM_PLAN");
+		unsetenv("VERIF_SIM_HOLD");
 		unsetenv("VERIF_SIM_TRACE_STDIO");
 		trace("S armed plan=%d entropy=%d clock=%d", plan_len, have_entropy, have_clock);
 	}
@@ -531,6 +535,20 @@ ssize_t write(int fd, const void *buf, size_t count)
 		if (e->arg > 0)
 			syscall(SYS_write, fd, buf, (size_t)e->arg < count ? (size_t)e->arg : count);
 		crash_now(e);
+	}
+	if (e && e->action == A_HOLD && hold_path[0]) {
+		/* park right before this write until the driver lets go: the driver decides
+		 * what other processes do in the meantime (a schedule, not a timing) */
+		fire(e);
+		trace("H hold before %s %ld", class_names[cls], counters[cls]);
+		long g = syscall(SYS_openat, AT_FDCWD, hold_path, O_RDONLY);
+		if (g >= 0) {
+			char c;
+			while (syscall(SYS_read, g, &c, 1) < 0 && errno == EINTR)
+				;
+			syscall(SYS_close, g);
+		}
+		e = 0;
 	}
 	if (e) {
 		if (e->action == A_EINTR) {
